@@ -29,6 +29,7 @@ pub fn gen_count_case(rng: &mut Rng, tier: &str, prop: &str) -> Case {
         alpha_w: [35, 15, 12, 8, 12, 16, 2],
         min_len: 0,
         dup_pct: 15,
+            tab_desc_pct: 0,
     };
     let records = g.gen(rng);
     let total: usize = records.iter().map(|r| r.seq.len()).sum();
